@@ -38,7 +38,9 @@ def run(ctx):
     report = Report("C02", ctx, "R1 for every WireFormat impl the consume sequence of parse (kinds, widths, byte order, fixed offsets, "
                     "destination fields) equals the emit sequence of write_to (kinds, widths, byte order, source fields), item by item; "
                     "tag constants written equal the values the parser tests; R2 the cache-flush / unicast-response bit is or-ed on "
-                    "write with the mask that parse tests and strips.")
+                    "write with the mask that parse tests and strips; R3 for every header a caller can assemble (each named opcode x "
+                    "each named rcode below 16 x each subset of the seven flag bits) the flags word produced by Header::get_flags is "
+                    "accepted by Header::parse and decodes to the same opcode, rcode and flags (decision tables evaluated from MIR).")
     pbs = {b.impl["self_s"].split("::")[-1].split("<")[0]: b for b in prog.method_bodies("wire_format::WireFormat", "parse")}
     wbs = {b.impl["self_s"].split("::")[-1].split("<")[0]: b for b in prog.method_bodies("wire_format::WireFormat", "write_to")}
     report.floor("WireFormat impls", len(pbs), 47)
@@ -103,9 +105,84 @@ def run(ctx):
                  "inverted masks %s); both sides must use 0x8000 and strip with 0x7FFF" % (
                      tn, [hex(x) for x in ors], [hex(x) for x in ands], [hex(x) for x in eqs], [hex(x) for x in nots]),
                  "%s:%d" % (wcb.file, wcb.line))
+    header_round_trip(ctx, report)
     report.assumptions += ["equality of values for all packets is not decided (symmetric mistakes are C10's schema check); "
                            "value-dependent behaviour (SVCB BTreeMap order, TXT cached size, empty TXT) is outside a layout argument"]
     return report.finish()
+
+
+def header_round_trip(ctx, report):
+    """C02-R3: write-then-parse of the flags word, over every header the public API can assemble"""
+    from common import load_tsv
+    from tables import Evaluator, EnumVal, NotATable
+    from hdrmodel import Header12
+    prog = ctx.prog
+    rfc = {r[0]: int(r[1], 16) for r in load_tsv("header.tsv")}
+    flag_names = ["RESPONSE", "AUTHORITATIVE_ANSWER", "TRUNCATION", "RECURSION_DESIRED", "RECURSION_AVAILABLE", "AUTHENTIC_DATA",
+                  "CHECKING_DISABLED"]
+    # the flag constants as the code defines them (a caller can only set these)
+    code_flags = {}
+    for k in prog.consts.values():
+        if k["crate"] == "simple_dns" and k["v"] is not None and k["name"] in flag_names and "PacketFlag" in k["def"]:
+            code_flags[k["name"]] = int(k["v"])
+    report.floor("PacketFlag constants", len(code_flags), 7)
+    hp = ctx.must_find(report, "simple_dns::Header::parse")
+    gf = ctx.must_find(report, "simple_dns::Header::get_flags")
+    if hp is None or gf is None or len(code_flags) < 7:
+        return
+    all_flags = 0
+    for v in code_flags.values():
+        all_flags |= v
+    bits = sorted(code_flags.values())
+    oadt = prog.adts["simple_dns::dns::OPCODE"]
+    radt = prog.adts["simple_dns::dns::RCODE"]
+    ops = [v["name"] for v in oadt["variants"] if v["name"] != "Reserved"]
+    rcs = [v["name"] for v in radt["variants"] if v["name"] != "Reserved" and int(v["discr"]) < 16]
+    report.floor("named opcodes", len(ops), 4)
+    report.floor("named rcodes below 16", len(rcs), 11)
+    bad = []
+    n = 0
+    try:
+        for op in ops:
+            for rc in rcs:
+                for sub in range(1 << len(bits)):
+                    z = 0
+                    for i, b in enumerate(bits):
+                        if sub >> i & 1:
+                            z |= b
+                    hdr = {"id": 0xBEEF, "opcode": EnumVal("OPCODE", op), "response_code": EnumVal("RCODE", rc), "z_flags": z,
+                           "opt": EnumVal("Option", "None")}
+                    m = Header12({}, all_flags)
+                    w = Evaluator(prog, m.hooks()).call(gf, [hdr])
+                    n += 1
+                    if not isinstance(w, int):
+                        bad.append("Header::get_flags(%s, %s, flags %#06x) is not a plain word (%r)" % (op, rc, z, w))
+                        break
+                    words = {(0, 2): 0xBEEF, (2, 4): w, (4, 6): 0, (6, 8): 0, (8, 10): 0, (10, 12): 0}
+                    m2 = Header12(words, all_flags)
+                    r = Evaluator(prog, m2.hooks()).call(hp, [("data",)])
+                    if not (isinstance(r, EnumVal) and r.v == "Ok"):
+                        bad.append("a header with opcode %s, rcode %s and flags %#06x is written as %#06x, which Header::parse rejects (%r)" % (
+                            op, rc, z, w, r))
+                    else:
+                        f = dict(zip(["id", "opcode", "response_code", "z_flags", "opt"], r.f[0].f))
+                        if f["opcode"] != hdr["opcode"] or f["response_code"] != hdr["response_code"] or f["z_flags"] != z or f["id"] != 0xBEEF:
+                            bad.append("a header with opcode %s, rcode %s and flags %#06x is written as %#06x and parsed back as opcode %r, "
+                                       "rcode %r, flags %r" % (op, rc, z, w, f["opcode"], f["response_code"], f["z_flags"]))
+                    if len(bad) > 6:
+                        raise StopIteration
+    except StopIteration:
+        pass
+    except NotATable as e:
+        bad.append("Header::get_flags / Header::parse is no longer a loop-free decision table: %s" % e)
+    report.count(n)
+    report.extra["header_round_trips_evaluated"] = n
+    if not bad:
+        report.nontriv("header round trip")
+        report.sample({"rule": "C02-R3", "domain": "%d opcodes x %d rcodes x %d flag subsets" % (len(ops), len(rcs), 1 << len(bits)),
+                       "result": "every written flags word parses back to the same opcode / rcode / flags"})
+    for msg in bad[:4]:
+        viol(report, "C02-R3", "Header", "round-trip", msg)
 
 
 def envelope(ctx, pbs, wbs):
